@@ -102,7 +102,9 @@ def run(ctx, res):
             nonascii_label = any(_re.search(r'(?:^| )_:[^ ]*[^\x00-\x7f]', l) for l in o['set'])
             if star and 'rdflib-no-rdf-star' in known:
                 res.violations.append({'key': 'rdflib-no-rdf-star', 'what': 'recorded finding reproduced', 'replay': None})
-            elif nonascii_label and 'Failed to eat _:' in str(o['rdflib_exc']) and 'rdflib-nonascii-bnode-label' in known:
+            elif nonascii_label and _rejected_nonascii_label(o['rdflib_exc']) and 'rdflib-nonascii-bnode-label' in known:
+                # the rejected line itself starts with (or has as object) a non-ASCII label: the label is cut at the first non-ASCII character, so the message is
+                # 'Failed to eat _:' when it starts with one and 'Predicate must be uriref' / 'object' messages when one comes later
                 res.violations.append({'key': 'rdflib-nonascii-bnode-label', 'what': 'recorded finding reproduced', 'replay': None})
             else:
                 res.violations.append({'key': None, 'sig': 'rdflib-raises', 'what': 'materialize raises: %s' % o['rdflib_exc'], 'replay': c})
@@ -134,6 +136,15 @@ def run(ctx, res):
                 res.violations.append({'key': None, 'sig': 'rdflib-view', 'what': 'a caller iterating the returned Graph sees %d statements, the set has %d: missing %r'
                                        % (len(view), len(exp_triples), [t for t in exp_triples if list(t) not in view][:2]), 'replay': c})
     res.samples = [{'case': cases[0]}]
+
+
+def _rejected_nonascii_label(exc):
+    import re
+    msg = exc.get('msg', '') if isinstance(exc, dict) else str(exc)
+    if 'Invalid line' not in msg:
+        return False
+    line = msg.split('\n', 1)[1] if '\n' in msg else ''
+    return bool(re.match(r"""['"]?(?:\S+ +\S+ +)?_:[^ ]*[^\x00-\x7f]""", line))
 
 
 def replay(ctx, res, payload):
